@@ -79,14 +79,17 @@ func spawnedPending(dump string) int {
 	return n
 }
 
+var nDumps int
+var stackBuf = make([]byte, 1<<16)
+
 func allStacks() string {
-	buf := make([]byte, 1<<18)
+	nDumps++
 	for {
-		n := runtime.Stack(buf, true)
-		if n < len(buf) {
-			return string(buf[:n])
+		n := runtime.Stack(stackBuf, true)
+		if n < len(stackBuf) {
+			return string(stackBuf[:n])
 		}
-		buf = make([]byte, 2*len(buf))
+		stackBuf = make([]byte, 2*len(stackBuf))
 	}
 }
 
@@ -507,6 +510,7 @@ type caseOut struct {
 	Viol      []viol     `json:"viol"`
 	WbRead    []int      `json:"wb_read"`
 	LockNote  string     `json:"lock_note,omitempty"`
+	Ng        int        `json:"stack_dumps"`
 	Async     []asyncRec `json:"async"`
 	WbMissing bool       `json:"wb_missing"`
 	Overflow  bool       `json:"overflow"`
@@ -805,6 +809,24 @@ func runSched(c caseIn) *caseOut {
 	// settleAll: wait until every caller is parked at a tier call, finished, or blocked on hybrid's key lock.  "Blocked" is
 	// read off the goroutine's state and stack ([sync.Mutex.Lock] called directly from package hybrid), in a dump taken
 	// after every other caller has settled — nobody can release a lock any more at that point.
+	// poll: busy-wait (timers are far too coarse here) up to d for an arrival or a finished caller
+	poll := func(d time.Duration) bool {
+		for t0 := time.Now(); ; {
+			select {
+			case j := <-s.arrive:
+				note(j)
+				return true
+			case i := <-doneCh:
+				finished[i] = true
+				return true
+			default:
+			}
+			if time.Since(t0) > d {
+				return false
+			}
+			runtime.Gosched()
+		}
+	}
 	settleAll := func() {
 		deadline := time.Now().Add(20 * time.Second)
 		for {
@@ -817,18 +839,18 @@ func runSched(c caseIn) *caseOut {
 			if len(pending) == 0 {
 				return
 			}
-			wait := 20 * time.Second
-			if c.Locks != "" {
-				wait = 50 * time.Microsecond
-			}
-			select {
-			case j := <-s.arrive:
-				note(j)
+			if c.Locks == "" {
+				select {
+				case j := <-s.arrive:
+					note(j)
+					continue
+				case i := <-doneCh:
+					finished[i] = true
+					continue
+				case <-time.After(20 * time.Second):
+				}
+			} else if poll(40 * time.Microsecond) {
 				continue
-			case i := <-doneCh:
-				finished[i] = true
-				continue
-			case <-time.After(wait):
 			}
 			if c.Locks != "" {
 				dump := allStacks()
@@ -839,14 +861,18 @@ func runSched(c caseIn) *caseOut {
 					}
 				}
 				if all {
-					select {
-					case j := <-s.arrive:
-						note(j)
+					// confirm with a second, later dump: a caller that is really waiting for the key lock stays exactly there
+					if poll(30 * time.Microsecond) {
 						continue
-					case i := <-doneCh:
-						finished[i] = true
+					}
+					dump2 := allStacks()
+					for _, i := range pending {
+						if !blockedOnHybridLock(dump2, gids[i]) {
+							all = false
+						}
+					}
+					if !all {
 						continue
-					default:
 					}
 					for _, i := range pending {
 						blocked[i] = true
@@ -985,11 +1011,7 @@ func runSched(c caseIn) *caseOut {
 			if spawnedPending(allStacks()) == 0 {
 				return
 			}
-			select {
-			case j := <-s.arrive:
-				note(j)
-			case <-time.After(100 * time.Microsecond):
-			}
+			poll(60 * time.Microsecond)
 			if time.Now().After(deadline) {
 				out.WbMissing = true
 				return
@@ -1038,6 +1060,24 @@ func runSched(c caseIn) *caseOut {
 					progress = true
 				}
 			}
+			if !progress && c.Locks != "" {
+				// nothing can move although callers are unfinished: re-examine the callers believed to be blocked before giving up
+				stuck := false
+				for i := 0; i < lim; i++ {
+					if !finished[i] && !parked[i] {
+						blocked[i], stuck = false, true
+					}
+				}
+				if stuck {
+					settleAll()
+					for i := 0; i < lim; i++ {
+						if parked[i] && !finished[i] {
+							progress = true
+							out.LockNote = fmt.Sprintf("caller %d had been judged blocked on the key lock but went on without anybody releasing it", i)
+						}
+					}
+				}
+			}
 		}
 	}
 	if c.Reader && n > 0 {
@@ -1060,6 +1100,7 @@ func runSched(c caseIn) *caseOut {
 	out.Acc = s.acc
 	out.Spawned = s.nextWb
 	out.Overflow = s.over
+	out.Ng = nDumps
 	out.Async = append([]asyncRec{}, s.async...)
 	out.WbRead = append([]int{}, s.wbRead...)
 	s.free = true
